@@ -191,11 +191,11 @@ def continuous_scope(ctx):
     """ContinuousDiscretizer itself (min_freq -> q): boundaries strictly increasing observed values then +inf; every value at least as frequent as min_freq is a boundary"""
     from AutoCarver.discretizers.utils.quantitative_discretizers import ContinuousDiscretizer
     rng = ctx.rng; n_cases = 400 if ctx.tier == 'quick' else 4000
-    ctx.bound('ContinuousDiscretizer.fit', '%d seeded columns of 20-200 rows with one spike whose frequency is placed just below / on / above min_freq, min_freq in {0.05,0.1,0.15,0.2,0.3,0.35,0.45,0.5}, optional NaN' % n_cases)
+    ctx.bound('ContinuousDiscretizer.fit', '%d seeded columns of 20-1000 rows with one spike whose frequency is placed just below / on / above min_freq, min_freq in {0.05,0.1,0.15,0.2,0.3,0.35,0.45,0.5}, optional NaN' % n_cases)
     for _ in range(n_cases):
-        mf = rng.choice([0.05, 0.1, 0.15, 0.2, 0.3, 0.35, 0.45, 0.5]); n = rng.choice([20, 40, 50, 100, 200])
+        mf = rng.choice([0.05, 0.1, 0.15, 0.2, 0.3, 0.35, 0.45, 0.5]); n = rng.choice([20, 40, 50, 100, 200, 400, 1000])
         c = max(1, min(n, int(round(mf * n)) + rng.choice([-1, 0, 0, 1, 2])))
-        nan_count = rng.choice([0, 0, n // 10]); rest = n - c - nan_count
+        nan_count = rng.choice([0, 0, n // 10, 1]); rest = n - c - nan_count          # (1: a single missing row, a share as low as 0.1%, still is a modality of its own)
         if rest < 0: continue
         vals = [5.0] * c + [round(rng.random() * 10, 3) + (0 if rng.random() < 0.5 else 6) for _ in range(rest)] + [np.nan] * nan_count
         rng.shuffle(vals)
